@@ -109,19 +109,20 @@ impl ClientVisibility {
     /// Returns `true` if the entity was hidden from the client during this tick,
     /// which means that the client still has it and needs to be notified about the despawn.
     pub(super) fn remove_despawned(&mut self, entity: Entity) -> bool {
-        let removed = match &mut self.list {
-            VisibilityList::Blacklist(list) => list.remove(&entity).is_some(),
-            VisibilityList::Whitelist(list) => list.remove(&entity).is_some(),
-        };
-
-        if removed {
-            self.removed.remove(&entity);
-            let added = self.added.remove(&entity);
-            // For a blacklist `added` contains entities that were hidden during this tick.
-            return added && matches!(self.list, VisibilityList::Blacklist(_));
+        match &mut self.list {
+            VisibilityList::Blacklist(list) => {
+                list.remove(&entity);
+                self.removed.remove(&entity);
+                // For a blacklist `added` contains entities that were hidden during this tick.
+                self.added.remove(&entity)
+            }
+            VisibilityList::Whitelist(list) => {
+                list.remove(&entity);
+                self.added.remove(&entity);
+                // For a whitelist `removed` contains entities that were hidden during this tick.
+                self.removed.remove(&entity)
+            }
         }
-
-        false
     }
 
     /// Drains all entities for which visibility was lost during this tick.
